@@ -167,6 +167,16 @@ INFO = {
  "C19-h": ("same cds_list_splice() change as C01-h, found independently for C19", "a thread (bp: a handler's first rcu_read_lock) registering during a grace period is ignored afterwards"),
  "C20-g": ("x86 8-byte uatomic_inc uses incl (only the low 32 bits are incremented)", "8-byte counter whose low 32 bits are all ones"),
  "C20-h": ("caa_cast_long_keep_sign() masks instead of sign-extending", "signed operand narrower than the object with a negative value (default x86 / generic implementations)"),
+
+ # ---- round 6: one free-form change per property for eight properties, run against the finished checks WITHOUT strengthening first
+ "C02-i": ("futex(): a process-wide 'futex unavailable' flag set by the first ENOSYS makes every later call skip the system call", "a thread already asleep in FUTEX_WAIT, then one spurious ENOSYS elsewhere: its wake-up is never issued"),
+ "C03-i": ("call_rcu_wake_up(): FUTEX_WAKE issued before the helper's futex word is reset to 0", "the woken helper re-checks the word, still sees -1 and sleeps again; the store of 0 then hides all later wake-ups"),
+ "C05-i": ("partition_resize_helper(): leftover partition after an EAGAIN on a later helper thread is dropped ('start == 0 &&' removed)", "pthread_create failing for the 2nd or a later resize helper: part of the new level is never initialised"),
+ "C07-i": ("_cds_lfht_add(): 'bucket node goes first among identical hashes' decided from the node already stepped over", "a regular node whose hash equals a not yet existing bucket index, then an expand: the bucket node is linked after it, a later del cannot unlink it"),
+ "C10-i": ("cds_wfcq_splice_blocking() locks the destination queue instead of the source", "two consumers of one queue through the locked API, one of them splicing: a node is handed out twice"),
+ "C13-i": ("rcu_defer_barrier(): queue heads sampled after synchronize_rcu() instead of before", "a call queued by another thread while the reclaimer's grace period is in flight runs without a grace period of its own"),
+ "C15-i": ("bp cleanup_thread() no longer clears the slot's counter", "a slot pruned in a fork child (or left by a thread exiting inside a section) while its owner was in a section, then reused"),
+ "C16-i": ("bp after_fork handlers restore the signal mask from the shared save slot after dropping rcu_gp_lock", "two threads with different signal masks forking concurrently (bp handlers): one restores the other's mask"),
 }
 rows = []
 for d in sorted(glob.glob(os.path.join(V, "seeded", "C??-?"))):
